@@ -16,10 +16,11 @@ git checkout -q -- .
 DEMO_WITHOUT=$(go test -vet=off -count=1 ./$PKG/ 2>&1 | grep -c "^--- FAIL\|^FAIL\|panic:")
 rm -f $WT/$PKG/zz_seed_demo_test.go
 cp $P $OUT/patch.diff; cp $WT/out/$M/demo_test.go $OUT/demo_test.go; cp $WT/out/$M/notes.txt $OUT/notes.txt 2>/dev/null
-# run the check on /repo with the change applied
-cd /repo && git apply $P || { echo "$ID: cannot apply to /repo"; exit 1; }
-cd /verif && ./check $PROP > $OUT/check.log 2>&1; RC=$?
-cd /repo && git checkout -q -- .
+# run the check against the scratch worktree with the change applied (VERIF_REPO), /repo stays untouched;
+# the evidence file written by this run belongs to the changed tree: re-run the check on /repo before committing evidence
+cd $WT && git apply $P || { echo "$ID: cannot re-apply"; exit 1; }
+cd /verif && VERIF_REPO=$WT ./check $PROP > $OUT/check.log 2>&1; RC=$?
+cd $WT && git checkout -q -- .
 VIOL=$(grep -c "^VIOLATION" $OUT/check.log)
 python3 - <<PY
 import json
